@@ -535,7 +535,11 @@ theorem fair_quiet (m : κ → α → Bool) (e : Exec (step m)) (h0 : Ready m (e
       | none => exact ih
       | some s' => exact ready_internal m _ s' _ ih (hcanon n) hs
   obtain ⟨n, _, hq⟩ := fair_reaches (step := step m) clsOf Label.canon (Ready m) Quiet nu helpful
-    (fun s l s' hP hnq hok hs => ⟨ready_internal m s s' l hP hok hs, fair_step m s s' l hP hnq hok hs⟩)
+    (fun s l s' hP hnq hok hs => by
+      rcases fair_step m s s' l hP hnq hok hs with h | h | h
+      · exact Or.inr ⟨ready_internal m s s' l hP hok hs, Or.inl h⟩
+      · exact Or.inl h
+      · exact Or.inr ⟨ready_internal m s s' l hP hok hs, Or.inr h⟩)
     (fun s hP hnq => helpful_enabled m s hP hnq) e hcanon hfair (nu (e.st 0)) 0 h0 (Nat.le_refl _)
   exact ⟨n, hq, hready n⟩
 
